@@ -328,6 +328,7 @@ def _lammps(ctx, sh):
         except (core._Abort, core._Stop, core._Skip):
             raise
         except Exception as ex:
+            core.reraise_if_proxy_limitation(ex)
             ctx.fail("C12:no-unexpected-exception", repr(ex))
     finally:
         for k, v in saved.items():
@@ -491,6 +492,7 @@ def _cp2k(ctx, sh):
         except (core._Abort, core._Stop, core._Skip):
             raise
         except Exception as ex:
+            core.reraise_if_proxy_limitation(ex)
             ctx.fail("C12:no-unexpected-exception", repr(ex))
     finally:
         for k in names:
@@ -592,6 +594,7 @@ def _gromacs(ctx, sh):
     except (core._Abort, core._Stop, core._Skip):
         raise
     except Exception as ex:
+        core.reraise_if_proxy_limitation(ex)
         ctx.fail("C12:no-unexpected-exception", repr(ex))
     finally:
         igmx.GromacsRunner = saved
